@@ -22,7 +22,7 @@ def sh(cmd, cwd=None, env=None, timeout=7200):
 def main():
     args = [a for a in sys.argv[1:] if not a.startswith("--")]
     tier = "thorough" if "--thorough" in sys.argv else "quick"
-    dirs = sorted(glob.glob(os.path.join(V, "benign", "*")))
+    dirs = sorted(d for d in glob.glob(os.path.join(V, "benign", "*")) if os.path.isdir(d))
     if args:
         dirs = [d for d in dirs if any(a in os.path.basename(d) for a in args)]
     rc, o = sh(["git", "-C", "/repo", "status", "--porcelain"])
@@ -53,7 +53,7 @@ def main():
             bad.append(name)
     json.dump(res, open(os.path.join(V, "benign", "RESULTS.json"), "w"), indent=1)
     # regenerate lean/Cpl/Gen from the clean tree
-    for tool in ("translate.py", "py2lean.py"):
+    for tool in ("translate.py", "py2lean.py", "py2lean_typed.py"):
         sh([sys.executable, os.path.join(V, "tools", tool), "--repo", "/repo", "--out", os.path.join(V, "lean", "Cpl", "Gen")])
     print("silent on %d / %d; false alarms: %s" % (len(dirs) - len(bad), len(dirs), bad))
     sys.exit(1 if bad else 0)
